@@ -1,6 +1,9 @@
 (* C15 — model of character arrays and strings:
      wchar_helper_3.h: _my_PyUnicode_SizeAsChar16/32, _my_PyUnicode_AsChar16/32 (with the terminator
-       fix of commit 2103790), _my_PyUnicode_FromChar16/32;
+       fix of commit 2103790), _my_PyUnicode_FromChar16/32 — NOT written here: they are REGENERATED from
+       the C source into C15/Gen.v on every run (tools/props/c15_regen.py; size16, size32, as_char16,
+       as_char32, from_char16, from_char32, count_surrogates, join16_loop), on top of the CPython
+       specifications of C15/Spec.v (exn, res, zlen, PyUnicode_...);
      _cffi_backend.c: get_new_array_length :1346, convert_array_from_object string branches :1507-1557,
        b_string scans :6759, b_unpack string branch :6906.
    Memory is modelled at the level of units (8/16/32-bit code units; the harness decodes the raw
@@ -8,88 +11,8 @@
    allowed); a Python bytes a list of byte values.  Definitions only. *)
 From Coq Require Import ZArith List Bool.
 Import ListNotations.
+From Cffi Require Export C15.Spec C15.Gen.
 Open Scope Z_scope.
-
-Inductive exn := IndexError | TypeError | ValueError | SystemError.
-Inductive res (A : Type) := Ok (a : A) | Err (e : exn).
-Arguments Ok {A} a.
-Arguments Err {A} e.
-
-Definition zlen (l : list Z) : Z := Z.of_nat (length l).
-
-(* ---------------------------------------------------------------- wchar_helper_3.h *)
-(* _my_PyUnicode_SizeAsChar16: length + number of code points above 0xFFFF *)
-Fixpoint size16 (s : list Z) : Z :=
-  match s with
-  | [] => 0
-  | c :: r => (if 0xFFFF <? c then 2 else 1) + size16 r
-  end.
-Definition size32 (s : list Z) : Z := zlen s.
-
-(* the loop of _my_PyUnicode_AsChar16: units written, or ValueError above 0x10FFFF *)
-Fixpoint as_char16_loop (s : list Z) : res (list Z) :=
-  match s with
-  | [] => Ok []
-  | c :: r =>
-      if 0xFFFF <? c then
-        if 0x10FFFF <? c then Err ValueError
-        else match as_char16_loop r with
-             | Err e => Err e
-             | Ok us => let o := c - 0x10000 in
-                        Ok (Z.lor 0xD800 (Z.shiftr o 10) :: Z.lor 0xDC00 (Z.land o 0x3FF) :: us)
-             end
-      else match as_char16_loop r with
-           | Err e => Err e
-           | Ok us => Ok (c :: us)
-           end
-  end.
-
-(* _my_PyUnicode_AsChar16(unicode, result, resultlen): the units stored from result[0] on; a zero
-   unit follows when there is room (result < result + resultlen) *)
-Definition as_char16 (s : list Z) (resultlen : Z) : res (list Z) :=
-  match as_char16_loop s with
-  | Err e => Err e
-  | Ok us => Ok (if zlen us <? resultlen then us ++ [0] else us)
-  end.
-
-(* _my_PyUnicode_AsChar32 = PyUnicode_AsUCS4(u, result, resultlen, copy_null = resultlen > len):
-   SystemError when resultlen < len + copy_null *)
-Definition as_char32 (s : list Z) (resultlen : Z) : res (list Z) :=
-  let copy_null := zlen s <? resultlen in
-  if resultlen <? zlen s + (if copy_null then 1 else 0) then Err SystemError
-  else Ok (if copy_null then s ++ [0] else s).
-
-Definition is_hi (u : Z) : bool := (0xD800 <=? u) && (u <=? 0xDBFF).
-Definition is_lo (u : Z) : bool := (0xDC00 <=? u) && (u <=? 0xDFFF).
-
-Fixpoint count_surrogates (w : list Z) : Z :=
-  match w with
-  | a :: r => match r with
-              | b :: _ => (if is_hi a && is_lo b then 1 else 0) + count_surrogates r
-              | [] => 0
-              end
-  | [] => 0
-  end.
-
-Definition join_pair (ch ch2 : Z) : Z :=
-  Z.lor (Z.shiftl (Z.land ch 0x3FF) 10) (Z.land ch2 0x3FF) + 0x10000.
-
-Fixpoint join16_loop (w : list Z) : list Z :=
-  match w with
-  | [] => []
-  | a :: r => match r with
-              | b :: r' => if is_hi a && is_lo b then join_pair a b :: join16_loop r'
-                           else a :: join16_loop r
-              | [] => [a]
-              end
-  end.
-
-(* _my_PyUnicode_FromChar16 *)
-Definition from_char16 (w : list Z) : res (list Z) :=
-  if count_surrogates w =? 0 then Ok w else Ok (join16_loop w).
-(* _my_PyUnicode_FromChar32 (PyUnicode_FromKindAndData refuses > 0x10FFFF with SystemError) *)
-Definition from_char32 (w : list Z) : res (list Z) :=
-  if existsb (fun u => 0x10FFFF <? u) w then Err SystemError else Ok w.
 
 (* ---------------------------------------------------------------- element types and Python values *)
 Inductive ety := E8 | E16 | E32.     (* char (also signed/unsigned char) / char16_t / char32_t, wchar_t *)
@@ -180,11 +103,6 @@ Fixpoint zlist_eqb (x y : list Z) : bool :=
   match x, y with
   | [], [] => true
   | a :: x', b :: y' => (a =? b) && zlist_eqb x' y'
-  | _, _ => false
-  end.
-Definition exn_eqb (a b : exn) : bool :=
-  match a, b with
-  | IndexError, IndexError | TypeError, TypeError | ValueError, ValueError | SystemError, SystemError => true
   | _, _ => false
   end.
 Definition pyval_eqb (a b : pyval) : bool :=
